@@ -76,6 +76,7 @@ pub fn lit(s: &str) -> String {
 }
 
 pub mod arr;
+pub mod bounded;
 pub mod cap;
 pub mod conc;
 pub mod gc;
